@@ -17,12 +17,15 @@ PID = "C14"
 PROPS = ["foo", "bar", "baz"]
 
 PRELUDE = '''import builtins
+import scenic.syntax.veneer as _V
 LOG = builtins.VERIF_C14_LOG
 PROPS = ['foo', 'bar', 'baz']
 def objs():
     return simulation().objects[:2]
 def rec(kind, *args):
     LOG.append([kind, *args, [[getattr(o, p) for p in PROPS] + [o.position.y] for o in objs()]])
+def depth():
+    return len(_V.runningScenarios)
 def boom(t):
     if simulation().currentTime >= t:
         raise RuntimeError("injected in record/condition")
@@ -56,7 +59,13 @@ def gen_program(rng, idx):
         setup = gen_items(rng, 1, 0, in_setup=True)
         comp = [it if it[0] != "do" else ["do", rng.randrange(k + 1, nsubs)] if k + 1 < nsubs else ["wait"]
                 for it in gen_items(rng, 1, nsubs)]
-        subs.append(dict(setup=setup, compose=comp))
+        sub = dict(setup=setup, compose=comp)
+        if rng.random() < 0.4:
+            # the scenario is stopped from outside (time limit) while its compose block - and possibly a
+            # sub-scenario it invoked - is still running
+            sub["term_after"] = rng.randint(1, 3)
+            sub["compose"] = comp + [["wait"]] * 4
+        subs.append(sub)
     main = gen_items(rng, 0, nsubs) + [["wait"]] + gen_items(rng, 0, nsubs)
     beh = None
     if rng.random() < 0.6:
@@ -97,7 +106,7 @@ def emit_items(items, ind, fail=None, fail_pos=None, self_obj=False):
             L.append(pad + "wait")
         elif it[0] == "do":
             L.append(f"{pad}do Sub{it[1]}()")
-            L.append(f'{pad}rec("Pop")')
+            L.append(f'{pad}rec("Depth", depth())')
     if fail and fail_pos is not None and fail_pos >= len(items):
         L += [pad + l for l in fail_lines(fail)]
     if not L:
@@ -124,6 +133,8 @@ def to_scenic(prog):
         L.append(f"scenario Sub{k}():")
         L.append("    setup:")
         L.append('        rec("Push")')
+        if s.get("term_after"):
+            L.append(f"        terminate after {s['term_after']} steps")
         L += emit_items(s["setup"], 8, fail="raise" if f == "raise-sub-setup" and k == 0 else None, fail_pos=prog["fault_pos"])
         L.append("    compose:")
         sf = {"raise-sub-compose": "raise", "reject-sub": "reject", "terminate-sub": "terminate"}.get(f) if k == 0 else None
@@ -171,7 +182,7 @@ def zlit(x):
     return f"({x})" if x < 0 else str(x)
 
 
-def coq_case(name, before, ops, expected):
+def coq_case(name, before, ops, expected, idxs):
     tbl = "[" + "; ".join("[" + "; ".join(zlit(v) for v in row) + "]" for row in before) + "]"
     opl = []
     for o in ops:
@@ -182,7 +193,7 @@ def coq_case(name, before, ops, expected):
     exp = "[" + "; ".join("[" + "; ".join("[" + "; ".join(zlit(v) for v in row) + "]" for row in obs) + "]" for obs in expected) + "]"
     return (f"Definition ops_{name} : list op := [{'; '.join(opl)}].\n"
             f"Definition exp_{name} : list (list (list Z)) := {exp}.\n"
-            f"Lemma case_{name} : trace fixed ops_{name} (init (fun o p => nth p (nth o {tbl} []) 0)) 2 4 = exp_{name}.\n"
+            f"Lemma case_{name} : select [{'; '.join(str(i) + '%nat' for i in idxs)}] (trace fixed ops_{name} (init (fun o p => nth p (nth o {tbl} []) 0)) 2 4) = exp_{name}.\n"
             f"Proof. vm_compute. reflexivity. Qed.\n")
 
 
@@ -272,6 +283,7 @@ def main():
         c.hist("history-len<=10" if len(ops) <= 10 else "history-len>10")
         c.hist("overrides", sum(1 for o in ops if o[0] == "O"))
         c.hist("scenario-starts", sum(1 for o in ops if o[0] == "Push"))
+        c.hist("scenario-stopped-from-outside", sum(1 for j in job["prog"]["subs"] if j.get("term_after")))
         # ---- oracles on the implementation
         if r["after"] != r["before"] or not r["allprops_equal"]:
             c.violation("scene-changed", "a property of a scene object reads differently after the simulation",
@@ -288,28 +300,41 @@ def main():
             return [[int(v) for v in row] for row in s]
         mops = [["Begin"]]
         exp = [ints(r["before"])]
+        idxs = [0]
         ok = True
+        depth = 1  # the top-level scenario
         for l in log:
             kind = l[0]
             if kind in ("W", "O"):
                 if float(l[3]) != int(l[3]):
                     ok = False
                 mops.append([kind, l[1], l[2], int(l[3])])
-            elif kind in ("Push", "Pop"):
-                mops.append([kind])
+            elif kind == "Push":
+                mops.append(["Push"])
+                depth += 1
+            elif kind == "Depth":
+                # the implementation reports how many scenarios are running after `do` returned:
+                # the ones that stopped were stopped innermost first
+                if l[1] >= depth:
+                    continue
+                while depth > l[1]:
+                    mops.append(["Pop"])
+                    depth -= 1
             elif kind == "Fail":
                 continue
+            idxs.append(len(mops) - 1)
             exp.append(ints(l[-1]))
         mops.append(["Finish"])
+        idxs += [len(mops) - 1, len(mops)]
         exp.append(ints(r["after"]))
         exp.append(ints(r["after"]))
         if ok:
             nm = r["name"]
-            coq_cases.append((nm, coq_case(nm, ints(r["before"]), mops, exp)))
+            coq_cases.append((nm, coq_case(nm, ints(r["before"]), mops, exp, idxs)))
             case_jobs[nm] = (job, mops, exp, r["outcome"])
         c.sample(dict(program=job["src"][len(PRELUDE):], history=ops, outcome=r["outcome"]), limit=3)
     # ---- kernel evaluates the model on every logged history
-    header = "From Coq Require Import ZArith List.\nFrom Scenic Require Import C14.SimState.\nImport ListNotations.\nOpen Scope Z_scope.\n"
+    header = "From Coq Require Import ZArith List.\nFrom Scenic Require Import C14.SimState.\nImport ListNotations.\nOpen Scope Z_scope.\nDefinition select (idx:list nat) (l:list (list (list Z))) := map (fun i => nth i l []) idx.\n"
     shards = [coq_cases[i:i + 200] for i in range(0, len(coq_cases), 200)]
 
     def run_shard(k_sh):
